@@ -47,11 +47,14 @@ def build(spec: List[Dict]) -> DeepAnwendungshandbuch:
 STALE_TEXT = "stale-text-left-in-the-context-by-an-earlier-step"
 
 
-async def validate(spec: List[Dict], world: E.World, soll: bool, scheduler: Optional[sched.Sched] = None, stale_text: bool = False):
+async def validate(spec: List[Dict], world: E.World, soll: bool, scheduler: Optional[sched.Sched] = None, stale_text: bool = False, built: Optional[list] = None):
     """("ok", [ValidationResultInContext]) | ("exc", exception)
     stale_text: the calling task has evaluated a stand-alone format constraint before (the documentation tells users to set the context
-    variable themselves for that) - what it left there must not reach any data element"""
+    variable themselves for that) - what it left there must not reach any data element
+    built: a list that receives the DeepAnwendungshandbuch object that was validated (to look at / re-use its objects afterwards)"""
     ahb = build(spec)
+    if built is not None:
+        built.append(ahb)
 
     async def go():
         E.set_world(world)
@@ -79,6 +82,23 @@ async def validate_sequence(spec: List[Dict], worlds: List[E.World], soll: bool,
         return outcomes
 
     return await sched.run_under(scheduler, go)
+
+
+def free_text_objects(ahb) -> Dict[str, object]:
+    """discriminator -> the DataElementFreeText object of the (validated) AHB"""
+    out = {}
+
+    def walk_group(g):
+        for seg in g.segments or []:
+            for de in seg.data_elements or []:
+                if isinstance(de, DataElementFreeText):
+                    out[de.discriminator] = de
+        for sub in g.segment_groups or []:
+            walk_group(sub)
+
+    for g in ahb.lines:
+        walk_group(g)
+    return out
 
 
 def summarise(results) -> List[tuple]:
